@@ -32,6 +32,20 @@ def word_char(c):
     return z3.And(c != 32, c != 10, c != 41, c != 9, c != 13, c != 39, c != 34, z3.UGE(c, 33), c != 96)
 
 
+def sp(text, asm):
+    """the text with every space replaced by a symbolic blank (space, tab, newline or carriage return): the property
+    holds wherever the primary stands and however the words are separated"""
+    out = []
+    for part in re.split("( )", text):
+        if part == " ":
+            c = sym_char()
+            asm.append(z3.Or(c == 32, c == 9, c == 10, c == 13))
+            out.append(c)
+        elif part:
+            out.append(part)
+    return out
+
+
 def find_sub(items, needle):
     """positions where the concrete/symbolic item sequence `needle` occurs structurally in rope `items`"""
     out = []
@@ -136,25 +150,26 @@ def run(ctx, rep, tier):
                         continue
                     cs = [sym_char() for _ in range(k)]
                     asm = [pred(cs[0])] + [word_char(c) for c in cs]
-                    one("%s%s+%d%s" % (pre, kw, k, suf), [pre + kw + " "] + cs + [suf], asm, kw, cs)
+                    one("%s%s+%d%s" % (pre, kw, k, suf), sp(pre + kw + " ", asm) + cs + sp(suf, asm), asm, kw, cs)
         samples.append(dict(keyword=kw, word_lengths=list(range(1, kmax + 1))))
     # (2) missing argument
     for kw in MISSING:
         for pre in (PREFIXES[:2] if q else PREFIXES):
             for tail in ("", " "):
                 kind = KIND.get(kw)
-                one("%s%s<missing>%r" % (pre, kw, tail), [pre + kw + tail], [], kw, [], missing_kind=kind)
+                asm = []
+                one("%s%s<missing>%r" % (pre, kw, tail), sp(pre + kw + tail, asm), asm, kw, [], missing_kind=kind)
     # (3) a word that is no keyword at all
     for pre in (PREFIXES[:2] if q else PREFIXES):
         for k in range(1, (3 if q else 5) + 1):
             cs = [sym_char() for _ in range(k)]
             asm = [word_char(c) for c in cs] + [z3.And(cs[0] != ord("-"), cs[0] != ord("("), cs[0] != ord("!"), cs[0] != ord(","), cs[0] != ord("n"))]
-            one("%sunknown%d" % (pre, k), [pre] + cs, asm, None, cs)
+            one("%sunknown%d" % (pre, k), sp(pre, asm) + cs, asm, None, cs)
     cov = B.coverage_common()
     cov.update(explanation="parse incl. error dispatch and Display executed from MIR; per family z3 decides over all values of the symbolic "
                "argument characters whether the message (a rope containing those very characters) is non-empty, names the keyword, quotes the "
                "word, and quotes only input text",
-               bounds=dict(keywords=list(KW), missing_argument_keywords=MISSING, word_len=kmax, prefixes=PREFIXES if not q else PREFIXES[:2]),
+               bounds=dict(separators="every blank between words is a symbolic character out of {space, tab, newline, CR}", keywords=list(KW), missing_argument_keywords=MISSING, word_len=kmax, prefixes=PREFIXES if not q else PREFIXES[:2]),
                samples=samples, outside="arguments that start validly (C05); quoted argument words; longer words",
                evaluations=len(rep.queries), distinct_nontrivial=len(rep.queries))
     rep.coverage = cov
